@@ -239,6 +239,51 @@ def probe_programs(pt, seed):
                 hh.update(t.encode())
         return hh.hexdigest()[:20]
     out.append(("catalogue_slice", catalogue_probe))
+
+    def odd_names(v):
+        """Subroutines whose names contain no ASCII letter or digit (their labels cannot be derived from the name)."""
+        def mk(nm, k):
+            def f(x):
+                return x + pt.Int(k)
+            f.__name__ = "_" * (k + 1)
+            return pt.Subroutine(pt.TealType.uint64, name=nm)(f)
+        subs = [mk(None, 0), mk(None, 1), mk("<>", 2), mk("--", 3), mk("\u00e9\u00e8", 4)]
+        e = pt.Int(1)
+        for f in subs:
+            e = e + f(pt.Int(2))
+        return rep(lambda: pt.compileTeal(e, pt.Mode.Application, version=v))
+    for v in (6, 8):
+        out.append(("odd_names_v%d" % v, (lambda v=v: odd_names(v))))
+
+    def cross_version(recipe_or_expr, vs):
+        """One expression object compiled at several versions in turn; each result must equal what a fresh object gives at that
+        version (nothing a compilation learns about the target may stay on the object)."""
+        res = []
+        obj = recipe_or_expr()
+        for v in vs:
+            try:
+                res.append((v, sha(pt.compileTeal(obj, pt.Mode.Application, version=v))))
+            except BaseException as e:
+                res.append((v, "EXC:" + type(e).__name__))
+        return res
+
+    def xv_program():
+        s = pt.ScratchVar(pt.TealType.bytes)
+        return pt.Seq(s.store(pt.Concat(pt.Bytes("0123456789abcdef"), pt.Txn.application_args[0])),
+                      pt.Pop(pt.Substring(s.load(), pt.Int(2), pt.Int(10))), pt.Pop(pt.Extract(s.load(), pt.Int(1), pt.Int(3))),
+                      pt.Pop(pt.Suffix(s.load(), pt.Int(4))), pt.Pop(pt.Substring(s.load(), pt.Int(0), pt.Len(s.load()))),
+                      pt.Pop(pt.GetByte(s.load(), pt.Int(1))), pt.Pop(pt.Btoi(pt.Extract(s.load(), pt.Int(0), pt.Int(8)))),
+                      pt.Pop(pt.Itob(pt.Int(7))), pt.Int(1))
+    for order in ([4, 6], [6, 4], [2, 5, 8], [10, 3, 6]):
+
+        def xv(order=order):
+            seqr = dict(cross_version(xv_program, order))
+            outl = []
+            for v in order:
+                fresh = dict(cross_version(xv_program, [v]))[v]
+                outl.append("v%d:%s" % (v, "same" if fresh == seqr[v] else "DIFFERS(%s vs fresh %s)" % (seqr[v][:8], fresh[:8])))
+            return ["same" if x.endswith("same") else x for x in outl] + ["same"]
+        out.append(("cross_version_%s" % "_".join(map(str, order)), xv))
     out.append(("template", lambda: pt.compileTeal(pt.Seq(pt.Pop(pt.Tmpl.Bytes("TMPL_K")), pt.Tmpl.Int("TMPL_N")), pt.Mode.Signature, version=6, assembleConstants=True)))
     return out
 
